@@ -21,6 +21,8 @@ func init() {
 }
 
 func runC15(c *Ctx) {
+	c.R.Rule("RS-no-request-time-state", "request handling writes no state that outlives the request (package-level variables, objects built at start-up, constructor variables captured by handlers) declared in the packages implementing this property", 1)
+	runStateless(c, "RS-no-request-time-state", "main.OAuthProxy", "main.allowedRoute", "pkg/ip")
 	r := c.R
 	r.Rule("R1-query-free-match", "the operand of every skip-auth regex match is query- and fragment-free on every path", 1)
 	r.Rule("R2-route-predicates", "method equality, both predicates on the same route, negate handling, rule construction", 4)
@@ -175,6 +177,13 @@ func runC15(c *Ctx) {
 				fa, ok := st.Addr.(*ssa.FieldAddr)
 				if !ok {
 					continue
+				}
+				if fld := walk.FieldOf(fa.X.Type(), fa.Field); fld == methodF || fld == negateF {
+					// each rule is built from its own entry: nothing stored into a route is carried over from the
+					// previous loop iteration (a variable hoisted out of the loop and assigned in one branch only; round 7)
+					if ph := loopCarriedPhi(st.Val); ph != nil {
+						c.bad(rule, "builder-per-entry|"+fnKey(build), in, "the "+fld.Name()+" stored into a skip-auth rule can be the value left over from the previous configured entry (a variable assigned on only some paths of the loop body): a plain path rule listed after a negated one becomes negated, so the decision depends on the order of the entries", nil, 0)
+					}
 				}
 				switch walk.FieldOf(fa.X.Type(), fa.Field) {
 				case methodF:
@@ -1127,7 +1136,14 @@ func runC15R9(c *Ctx, rule string) {
 			c.R.OK(rule, key, c.P.Pos(load.Pos()), "UnmarshalExact(into, decodeFromCfgTag): tag name only")
 		}
 	}
-	for _, name := range []string{"SkipAuthRoutes", "SkipAuthRegex", "TrustedIPs"} {
+	runOptionListsVerbatim(c, rule, "SkipAuthRoutes", "SkipAuthRegex", "TrustedIPs")
+}
+
+// runOptionListsVerbatim: the named list fields of options.Options are read-only outside option loading (no element
+// store, no sort/copy into them, no append stored back, no reassignment): validation looks at the operator's entries,
+// it does not rewrite them before the consumer is built from them.
+func runOptionListsVerbatim(c *Ctx, rule string, names ...string) {
+	for _, name := range names {
 		f := c.Field(rule, "pkg/apis/options.Options."+name)
 		if f == nil {
 			continue
@@ -1255,4 +1271,37 @@ func runLoaderSwitchesRule(c *Ctx, rule string) {
 	case !bad:
 		c.R.OK(rule, "loader-switch|all", "-", sprintf("%d viper call(s) in the option loader, all reviewed switches with their constant arguments", n))
 	}
+}
+
+// loopCarriedPhi: following v through phis (and value-preserving wrappers), a phi in a loop header whose back-edge
+// operand is not a constant: the value of the previous iteration can flow into this one.
+func loopCarriedPhi(v ssa.Value) *ssa.Phi {
+	seen := map[ssa.Value]bool{}
+	var rec func(v ssa.Value) *ssa.Phi
+	rec = func(v ssa.Value) *ssa.Phi {
+		v = unwrap0(v)
+		if seen[v] {
+			return nil
+		}
+		seen[v] = true
+		ph, ok := v.(*ssa.Phi)
+		if !ok {
+			return nil
+		}
+		b := ph.Block()
+		for i, e := range ph.Edges {
+			if i < len(b.Preds) && b.Dominates(b.Preds[i]) {
+				if _, isConst := e.(*ssa.Const); !isConst {
+					return ph
+				}
+			}
+		}
+		for _, e := range ph.Edges {
+			if r := rec(e); r != nil {
+				return r
+			}
+		}
+		return nil
+	}
+	return rec(v)
 }
